@@ -137,7 +137,7 @@ def decode(matrix: List[List[List[dict]]]) -> MATRIX:
     return [[
         Polynomial(*[Monomial(
             scalar=monomial["scalar"],
-            deltas=monomial["deltas"])
+            deltas=[tuple(delta) for delta in monomial["deltas"]])
             for monomial in polynomial])
         for polynomial in row]
         for (i, row) in enumerate(matrix)]
